@@ -160,8 +160,11 @@ def generate(ctx):
                "rigid": rigid, "perm_f": pf, "perm_m": pm}
     # many mobile atoms, few fixed ones: k (mobile atoms neither restrained nor nearest) in the thousands.
     # 1.1^k is still an ordinary double for k < 7448 (seed C08-4: exponent clamped at 1000 "against overflow")
-    for _ in range(ctx.n(3, 40)):
-        nf, nm = rng.randint(1, 3), rng.choice([1001, 1003, 1100, rng.randint(1002, 1500), rng.randint(1500, 3000)])
+    for _ in range(ctx.n(8, 60)):
+        # few fixed atoms (k in the thousands) or many (their nearest mobile atoms spread over the whole index range:
+        # seed C08-8, a blockwise nearest-atom search that returns block-local indices beyond 1024 mobile atoms)
+        nf = rng.choice([rng.randint(1, 3), rng.randint(25, 40), rng.randint(25, 40)])
+        nm = rng.choice([1001, 1003, 1100, rng.randint(1025, 1500), rng.randint(1500, 3000), rng.randint(2049, 3000)])
         scale = 1.0
         fixed = _coords(rng, nf, "float", scale)
         mobile0 = _coords(rng, nm, "float", scale)
@@ -269,6 +272,21 @@ def _run(fixed, mobile0, mobile, restr, restr_as):
                     calc(decoy)
             except Exception:  # noqa: BLE001  (the case under test decides what is reported)
                 pass
+    # ... and ONE writable array object refilled in place (the next frame loaded into the same buffer): first the
+    # scrambled configuration goes through it, then — same object, new contents — the configuration under test.
+    # The value for it must be the value of its CURRENT contents (seed C08-7: last result cached per array identity)
+    vbuf = None
+    if len(mobile) == len(mobile0) and len(mobile) > 0:
+        try:
+            buf = np.array((M[::-1] * 1.9 + np.array([0.7, -1.3, 0.4])), dtype=float)
+            with np.errstate(all="ignore"):
+                calc(buf)
+                buf[:] = M
+                vbuf = float(calc(buf))
+            out["buffer_modified"] = not np.array_equal(buf, M)
+        except Exception:  # noqa: BLE001
+            vbuf = None
+    out["value_via_reused_buffer"] = vbuf
     try:
         with np.errstate(all="ignore"):
             v = calc(M)
@@ -398,8 +416,13 @@ def evaluate(ctx, case):
         ctx.oracle_fail(f"chi2:value-vs-definition:{rc}", case, detail)
     if not v >= 0.0:
         ctx.oracle_fail(f"chi2:negative:{rc}", case, detail)
-    if res["modified"]:
+    if res["modified"] or res.get("buffer_modified"):
         ctx.oracle_fail("chi2:inputs-modified", case, detail)
+    vb = res.get("value_via_reused_buffer")
+    ctx.oracle_ok(1)
+    if vb is not None and fbits(vb) != fbits(v):
+        ctx.oracle_fail(f"chi2:value-depends-on-array-identity-or-history:{rc}", case,
+                        dict(detail, via_reused_buffer=vb))
 
     # common rigid motion
     R, t = case["rigid"]["m"], case["rigid"]["t"]
